@@ -80,6 +80,49 @@ Lemma fsum_repeat_zero n : fsum O (repeat 0 n) = 0.
 Proof. induction n as [|n IH]; cbn [repeat]; rewrite ?fsum_nil, ?fsum_cons, ?IH; ring. Qed.
 
 
+(* ------------------------------------------------------------------ strict positivity *)
+Definition fpos (x : F) : Prop := 0 <= x /\ x <> 0.
+
+Lemma fle_0_1 : 0 <= 1.
+Proof.
+  destruct (fle_total O T 0 1) as [H|H]; [exact H|].
+  (* 1 <= 0: then 0 <= -1 and 0 <= (-1)*(-1) = 1 *)
+  assert (H1 : 0 <= fopp O 1).
+  { pose proof (fle_add O T 1 0 (fopp O 1) H) as H'. replace (1 + fopp O 1) with 0 in H' by ring.
+    replace (0 + fopp O 1) with (fopp O 1) in H' by ring. exact H'. }
+  pose proof (fle_mul O T _ _ H1 H1) as H2. replace (fopp O 1 * fopp O 1) with 1 in H2 by ring. exact H2.
+Qed.
+
+Lemma fpos_1 : fpos 1.
+Proof. split; [exact fle_0_1|]. intro E. apply (F_1_neq_0 (Fth O T)). exact E. Qed.
+
+Lemma fle_add2 a b c d : a <= b -> c <= d -> a + c <= b + d.
+Proof.
+  intros H1 H2. apply (fle_trans O T _ (b + c)).
+  - apply (fle_add O T). exact H1.
+  - replace (b + c) with (c + b) by ring. replace (b + d) with (d + b) by ring. apply (fle_add O T). exact H2.
+Qed.
+
+Lemma fpos_add x y : fpos x -> fpos y -> fpos (x + y).
+Proof.
+  intros [Hx Nx] [Hy Ny]. split.
+  - replace 0 with (0 + 0) by ring. apply fle_add2; assumption.
+  - intro E. apply Nx. apply (fle_antisym O T); [|exact Hx].
+    (* x = -y <= 0 *)
+    replace x with (x + y + fopp O y) by ring. rewrite E.
+    pose proof (fle_add O T 0 y (fopp O y) Hy) as H'. replace (y + fopp O y) with 0 in H' by ring. exact H'.
+Qed.
+
+Lemma fpos_mul x y : fpos x -> fpos y -> fpos (x * y).
+Proof.
+  intros [Hx Nx] [Hy Ny]. split; [apply (fle_mul O T); assumption|].
+  intro E. apply Ny.
+  transitivity (finv O x * (x * y)); [field; exact Nx | rewrite E; ring].
+Qed.
+
+Lemma fpos_neq_0 x : fpos x -> x <> 0.
+Proof. intros [_ H]; exact H. Qed.
+
 (* a sum over 0..n-1 with a single selected index *)
 Lemma fsum_indicator_from (k m j : nat) (v : F) :
   fsum O (map (fun s => if Nat.eqb j s then v else 0) (seq k m))
